@@ -67,6 +67,8 @@ def run(ctx, rep):
         rep.guarded("R04-ARITY", lambda: _bt.rule_one_arm(t, rep, "R04-ARITY"))
         rep.guarded("R04-SIG", lambda: br.rule_sig(t, rep, "R04-SIG", oracle_wrong=SIG_ORACLE_WRONG))
         rep.guarded("R04-DIVMOD", lambda: r_divmod(sh, rep, t))
+        rep.rule("R04-GATEFIRST", "a failure gated on the semantics variant (the argument's type is narrower under that variant) is decided before any successful return of the arm", floor=2)
+        rep.guarded("R04-GATEFIRST", lambda: r_gatefirst(sh, rep, t))
         rep.rule("R04-WRAP", "consByteString: the wrapping variant reduces with mod_floor(256); the checked variant rejects both sides", floor=2)
         rep.guarded("R04-WRAP", lambda: r_wrap(sh, rep, t))
     if t:
@@ -79,6 +81,14 @@ def run(ctx, rep):
     rep.guarded("R04-BIGINTSITE", lambda: r_bigintsites(sh, rep, "R04-BIGINTSITE"))
     rep.guarded("R04-GATE", lambda: r_gate(sh, rep))
     rep.rule("R04-SERIAL", "serialiseData's re-encoder: one re-encoder per Data constructor; lists indefinite unless empty, maps definite, byte strings and integers through pallas' own encoders (64-byte chunking, canonical integer form)", floor=6)
+    # "a builtin never crashes the evaluator": the evaluator section of C10's panic audit covers every builtin's call arm and
+    # costing arm; re-run here (same review table) so that C04's verdict does not rest on C10 having been run
+    from . import c10 as _c10, panic_audit as _pa
+    rep.rule("R04-PANIC", "no unreviewed panic site (overflow, index, unwrap, unreachable) is reachable from the evaluator entry points — the builtins' call and costing arms included (C10's audit, re-run)", floor=30)
+    _secs = {}
+    rep.guarded("R04-PANIC", lambda: _secs.update(_c10.panic_sections(ctx.flow)))
+    if "C10-eval" in _secs:
+        rep.guarded("R04-PANIC", lambda: _pa.audit(rep, "R04-PANIC", ctx.flow, _secs["C10-eval"][0], "C10-eval", _pa.LineIndex(ctx.shape), stop=_secs["C10-eval"][1], floor_sites=600, describe="Machine::run, Program::eval*, Machine::new*, value_as_term"))
     rep.guarded("R04-SERIAL", lambda: r_serial(ctx.flow, rep))
     rep.rule("R04-BIGREPR", "Data integers: the plain CBOR form is chosen by a fallible conversion from at least 128 bits into pallas' Int; the negative bignum payload is -1-n computed on big integers in both directions", floor=5)
     rep.guarded("R04-BIGREPR", lambda: r_bigrepr(ctx.flow, rep, "R04-BIGREPR"))
@@ -740,3 +750,32 @@ def r_bigintsites(sh, rep, rid):
         rep.check(not boom, rid, "bigint-int-pattern#%s#%s#%d" % (rel.split("/")[-1], q, i), sh.loc(rel, pat), "%s matches only the 64-bit form BigInt::Int of a Data integer and the other case runs into `%s` (line %s): any integer beyond 64 bits reaching this place aborts the process" % (q, (boom[0].get("path") or boom[0].get("m")) if boom else "-", boom[0]["s"][0] if boom else "-"), why_ok="partial reader whose fallback does not abort", sample={"fn": q})
     if seen != BIGINT_OWNERS:
         rep.bad(rid, "bigint-repr-site#owners", "crates/uplc/src/machine/value.rs", "expected from_pallas_bigint and to_pallas_bigint to match on BigUInt / BigNInt (found %s): the detector may be blind (anchor)" % sorted(seen))
+
+
+# ---------------------------------------------------------------------------------------------------------
+# R04-GATEFIRST
+# ---------------------------------------------------------------------------------------------------------
+def r_gatefirst(sh, rep, t):
+    """Under a later semantics variant some builtins take a bounded `Int` where earlier variants take an Integer (shift and
+    rotate amounts). The specification's machine fails while *reading* such an argument, i.e. whatever the other arguments
+    are. In the call arm that is an `if <semantics ..> && <range test> { return Err(..) }`: no successful return may come
+    before it, or the failure depends on an unrelated argument (rotating the empty string by 2^63 must still fail)."""
+    n = 0
+    for v, arm in t.call.items():
+        body = arm["body"]
+        if body.get("k") != "Block":
+            continue
+        seen_ok = None
+        for st in body["stmts"]:
+            e = st.get("e") if st.get("k") == "ExprStmt" else st.get("init") if st.get("k") == "Local" else st
+            if e is None:
+                continue
+            gated = e.get("k") == "If" and re.search(r"(?<![\w.])semantics\b", sh.nsrc(RT, e["cond"])) and any(x.get("k") == "Return" and "Err(" in sh.nsrc(RT, x) for x in walk(e["then"]))
+            if gated:
+                n += 1
+                rep.check(seen_ok is None, "R04-GATEFIRST", "%s#gated-failure-before-any-success" % v, sh.loc(RT, e), "the %s arm can return successfully (line %s) before its semantics-gated argument check `%s`: for those arguments the application succeeds under a variant where reading the argument already fails" % (v, seen_ok["s"][0] if seen_ok else "?", sh.nsrc(RT, e["cond"])[:80]), sample={"builtin": v, "gate": sh.nsrc(RT, e["cond"])[:120]})
+            oks = [x for x in walk(e) if x.get("k") == "Return" and sh.nsrc(RT, x).startswith("returnOk(")]
+            if oks and seen_ok is None:
+                seen_ok = oks[0]
+    if n < 2:
+        raise AnchorMissing("semantics-gated failure checks in DefaultFunction::call (found %d, 2 on the pinned tree: shiftByteString, rotateByteString)" % n)
